@@ -79,10 +79,9 @@ def check_keys(sub, keys, seed: int, k: int) -> dict:
                 if variant == "unset":
                     props.pop(name, None)
                 if variant == "unset" and always and not nulladm and p["type"].get("name") != "null":
-                    # a response whose declared result type does not admit null: `result=None` is not a value
-                    # of the annotated type, so "unset" is not a state a type-correct caller can build
-                    res["skipped_unset_nonnull_result"] = res.get("skipped_unset_nonnull_result", 0) + 1
-                    return
+                    # a response whose declared result type does not admit null: the class still lets the result unset
+                    # (and parsing a reply without one gives that object) - "always written" holds for it too
+                    res["unset_nonnull_result"] = res.get("unset_nonnull_result", 0) + 1
                 tvv = S(tv.key, props)
                 j = erase(tvv)
                 value_is_null = name in props and erase(props[name]) is None
@@ -152,7 +151,7 @@ def check_keys(sub, keys, seed: int, k: int) -> dict:
     res["known_hits"] = ctx.known_hits
     res["known_examples"] = ctx.known_examples
     res["variants"] = dict(res["variants"])
-    res.setdefault("skipped_unset_nonnull_result", 0)
+    res.setdefault("unset_nonnull_result", 0)
     return res
 
 
@@ -168,7 +167,7 @@ def run(ctx: Ctx) -> None:
     samples = []
     skipped = 0
     for r in results:
-        skipped += r["skipped_unset_nonnull_result"]
+        skipped += r["unset_nonnull_result"]
         evaluations += r["evaluations"]
         attrs_n += r["attributes"]
         hashes |= r["hashes"]
@@ -179,7 +178,7 @@ def run(ctx: Ctx) -> None:
         "evaluations": evaluations, "distinct_nontrivial": len(hashes), "rule": RULE, "samples": samples[:6],
         "classes": len(keys), "attributes": attrs_n, "surroundings_per_attribute": k, "cases_by_variant": dict(variants),
         "exhaustive": False, "note": "exhaustive over (class, attribute); surroundings sampled",
-        "skipped_unset_result_of_non_nullable_type": skipped,
+        "unset_result_of_non_nullable_type_cases": skipped,
     })
     ctx.assumptions = ["a generated null at an optional non-null-admitting property (only LSPAny payloads) counts as unset: Python has one None"]
 
